@@ -3,7 +3,7 @@ ENTRY = {'coq_dir': 'C05',
  'coq_deps': ['Mgr', 'C10'],
  'model_files': ['Glue'],
  'harness': 'c05',
- 'cases': {'quick': 1500, 'thorough': 40000},
+ 'cases': {'quick': 1500, 'thorough': 400000},
  'consts': [],
  'rule': 'adaptive seeded event histories (5-60 events quick, 10-120 thorough) against the real TransportManager with a scripted '
          'transport: dial requests by peer and by address, address additions, open/negotiate outcomes, inbound connections (ids drawn from '
